@@ -137,6 +137,7 @@ def run(ctx):
         if not any(b.dominates(n, rb) for n in none_t):
             ctx.violation(R_END, key + "|removal-without-end", "a source is removed on a path on which it did not report Ready(None): its later items would be lost", b.loc(rb))
     # ---- cleanup: a slot marked removed (None) must be compacted away before poll_next returns: the polling loop unwraps every slot it visits
+    cursor_rule(ctx, c)
     R_CL = ctx.rule("C15.cleanup", "after a source slot was marked removed, every path to return passes through the compaction (Vec::retain) of the source list", floor=1)
     retains = set(bb for bb, t in b.calls() if t.get("f") and t["f"]["name"] in ("retain", "retain_mut", "swap_remove", "remove", "drain"))
     rets = set(b.returns())
@@ -189,3 +190,37 @@ def _all_paths_pass_with_flags(b, start, targets, exits):
         for s_ in b.succs(bb):
             work.append((s_, known2))
     return True
+
+
+def cursor_rule(ctx, c):
+    """Round-robin fairness of the merged sources: when ended sources are compacted out of the list, the poll cursor must move down by one for every removed entry that
+    sat before it, otherwise the source that slides into the cursor's old position is skipped (or polled twice) in this round. All three merged-source `poll_next`
+    implementations compact with `Vec::retain`; sibling agreement: the retain predicate is a closure that captures the poll cursor and subtracts from it."""
+    from mir import op_place, pl_local
+    R = ctx.rule("C15.cursor", "every compaction of a merged source list (Vec::retain in poll_next) adjusts the poll cursor inside the retain predicate", floor=3)
+    n = 0
+    for d, b in sorted(c.bodies.items()):
+        if not d.endswith("::poll_next") or c.is_test_path(d):
+            continue
+        for bb, t in b.calls():
+            f = t.get("f") or {}
+            if f.get("name") not in ("retain", "retain_mut") or "vec::" not in f.get("def", "") or len(t.get("a", [])) < 2 or b.is_cleanup(bb):
+                continue
+            recv_ty = b.locals[pl_local(op_place(t["a"][0]))] if op_place(t["a"][0]) is not None else ""
+            if "Vec<core::option::Option<" not in recv_ty:
+                continue
+            n += 1
+            key = "hydro_deploy_integration|%s|retain#%d" % (fn_key(c, b), n)
+            p = op_place(t["a"][1])
+            aty = b.locals[pl_local(p)] if p is not None else (t["a"][1].get("ty") or "")
+            cb = c.bodies.get(aty[8:]) if aty.startswith("closure#") else None
+            ups = list(cb.upvar_names().values()) if cb is not None else []
+            subs = 0
+            if cb is not None:
+                for _bb, _i, lhs, rv in cb.assignments():
+                    if rv["k"] == "bin" and rv["op"].startswith("Sub"):
+                        subs += 1
+            ctx.inst(R, key, sample={"predicate": aty[:90], "captures": ups, "subtractions": subs})
+            if cb is None or not any("cursor" in u for u in ups) or subs == 0:
+                ctx.violation(R, "hydro_deploy_integration|%s|compaction-without-cursor-adjustment" % fn_key(c, b), "the source list is compacted with a predicate that does not capture and decrement the "
+                              "poll cursor: after an ended source is removed the cursor points one slot too far and a live source is skipped in this round (its siblings adjust it)", b.loc(bb))
